@@ -123,3 +123,15 @@ def scan_interior_state(repo):
             if pat.search(code):
                 hits.append("%s:%d: %s" % (os.path.relpath(f, repo), n, code.strip()[:80]))
     return {"files_scanned": files, "hits": hits, "note": "textual scan; an assumption check, not a proof"}
+
+prop("C14", "proof",
+     "narrow: with completion compiled in, run_subparser returns completion output (when check_complete produces one) before value, help and error, and only in completion mode; "
+     "candidate assembly and filtering (complete_gen.rs) are string/iterator code outside both tools.",
+     ["candidate assembly by side effects across parsers", "Complete::complete filtering", "check_complete and the shell renderers", "hide restoring the hint list exactly"],
+     note=VERUS_NOTE, needs_autocomplete=True)
+prop("C20", "proof",
+     "the feature=\"autocomplete\" text of parse_option, ParseFallback(With), ParseHide, ParseGroupHelp, parse_pos_word, run_subparser and the State comp helpers verifies against the same contracts as the default text, "
+     "with cfg-aware `restored/unchanged/eqc` that collapse to equality when `comp` is None (lemma.C20.inert_without_comp); completion hooks are assumed to touch only `comp`. "
+     "Units whose text carries no cfg gate are listed as feature-independent (mechanical check).",
+     ["tokenizer hooks (ArgScanner)", "ParseOrElse / this_or_that_picks_first completion pass (assumed in the autocomplete configuration)", "ParseCommand/ParseFlag gated branches", "docgen/batteries/derive/colour features"],
+     note=VERUS_NOTE, needs_autocomplete=True)
